@@ -13,8 +13,8 @@ TRUSTED = [
     "Nice/Model/Lifecycle.lean carries only the BOOKKEEPING of the property (which containers mention a stream, which stream "
     "object owns each TURN refresh while it is disposed asynchronously, keepalive timer ownership) and the timer re-arm "
     "arithmetic. Tie: around every nice_agent_add_stream / nice_agent_remove_stream the harness snapshots the real agent's "
-    "streams, discovery list, refresh list (with `disposing`), triggered queue, check lists, pruning_streams, keepalive source "
-    "and next_stream_id (private headers); the Lean driver applies the model's addStream/removeStream to the pre-snapshot and "
+    "streams, discovery list, refresh list (with `disposing`), triggered queue, check lists, pruning_streams, keepalive source, "
+    "discovery timer source, discovery_unsched_items and next_stream_id (private headers); the Lean driver applies the model's addStream/removeStream to the pre-snapshot and "
     "must reproduce the post-snapshot exactly, and evaluates the executable invariant `wfb` (proved equivalent to WF) on EVERY "
     "snapshot, including those taken after arbitrary main-loop time. The other model transitions (gather, alloc, forget, freed, "
     "...) are not compared step by step: their effect is only checked through the invariant on the snapshots",
@@ -140,7 +140,7 @@ def program(rng, tier):
     return [o for o in ops if o]
 
 
-SNAP_DROP = re.compile(r" conncheck \d+ discoverytimer \d+")
+SNAP_DROP = re.compile(r" conncheck \d+")
 
 
 def canon(snap):
